@@ -59,5 +59,7 @@ pub mod c17;
 pub mod c18;
 #[cfg(any(feature = "p19"))]
 pub mod c19;
+#[cfg(any(feature = "p19"))]
+pub mod c19_mania;
 #[cfg(any(feature = "p20"))]
 pub mod c20;
